@@ -49,6 +49,12 @@ def with_home(fn):
 def run(sh):
     n = 300 if sh.tier == 'quick' else 50000
     with_home(lambda: engine_line.run_profile(sh, 'C15', 'records', n, MONITORS, nontrivial))
+    # pools shared by several holders of one-decimal amounts (0.1 + 0.2 - 0.1 - 0.2 leaves rounding dust in the usage)
+    with_home(lambda: engine_line.run_profile(
+        sh, 'C15', 'records', n // 3, MONITORS, nontrivial, prefix='decimal_pools_', tag='decpools',
+        overrides={'res_amounts': [0.1, 0.2, 0.2, 0.7, 0.3], 'p_resources': 1.0, 'res_cap': (1, 1),
+                   'n_resources': (1, 1), 'n_sources': (2, 3), 'n_stages': (3, 6),
+                   'stage_w': {'processor': 8, 'buffer': 2, 'handler': 1}}))
 
 
 def replay(sh, v):
